@@ -494,9 +494,15 @@ func (h *Hub) isConnectionAttemptRunning(ski string) bool {
 // register a new ship Connection
 func (h *Hub) registerConnection(connection api.ShipConnectionInterface) {
 	h.muxCon.Lock()
-	defer h.muxCon.Unlock()
-
+	existingC, replaced := h.connections[connection.RemoteSKI()]
 	h.connections[connection.RemoteSKI()] = connection
+	h.muxCon.Unlock()
+
+	// the connection registered so far is replaced (double connection) and will be closed,
+	// report it now as its closing will be after this new connection got set up
+	if replaced && existingC.DataHandler() != connection.DataHandler() {
+		h.hubReader.RemoteSKIDisconnected(connection.RemoteSKI())
+	}
 }
 
 // return the connection for a specific SKI
